@@ -135,6 +135,16 @@ CLAIMS = {
             "DESIGN.md section 9 C12",
             TB + "; bytes.decode modelled as an uninterpreted function of valid input; text form is a bounded stand-in",
             "deductive: AST->VC with dictionary case split and symbolic contents, z3; bounded exhaustive ranges for the text form"),
+    "C13": ("proof",
+            "loop contract on the real bf2_unpack_payload for ANY number of data lines (sizes 0..253, any pages): contiguous "
+            "lines give one extent holding every payload once; one gap at an arbitrary line gives exactly the two maximal "
+            "runs; bf2_convert_payload per format on <= 2 extents (BLOB accepted only as one extent at 0, memory image in "
+            "address order, compatible = raw lines); tag-type tables as ground facts.  The import state machine "
+            "(parse_bf2_file, exec_bf2instrs, bf2_import, annotations) and the platform-filter rendering are checked by the "
+            "bounded monitor on grammar-generated BF2 texts against the independent model spec/bf2.py",
+            "DESIGN.md section 9 C13",
+            TB + "; well-formed data lines; at most one gap in the L1 theorem; import state machine bounded only",
+            "deductive: AST->VC with a loop contract over abstract line lists and BigConcat payloads, z3; bounded monitor"),
 }
 
 NA_DEFAULT = "check not built yet (construction in progress, see DESIGN.md section 14)"
